@@ -22,13 +22,16 @@ def _grab(call, names):
 
 
 def confirm(ob, call, rep):
-    cap = _grab(call, ['crash_workload', 'ann_roundtrip', 'ann_linebreak', 'log_verbatim', 'ann_atomic', 'many_datasets'])
+    cap = _grab(call, ['crash_workload', 'ann_roundtrip', 'ann_linebreak', 'log_verbatim', 'ann_atomic', 'many_datasets',
+                       'results_latest'])
     if cap['name'] == 'ann_atomic':
         # structural obligation over the real method body (lock recorder + in-memory open): the concrete replay of
         # the harness already ran the real code; the race it stands for needs two writers and is not re-enacted
         return dict(ok=False, note='read-modify-write of the annotations / log file is not one exclusive critical section')
-    if cap['name'] in ('crash_workload', 'many_datasets'):
-        if cap['name'] == 'many_datasets':
+    if cap['name'] in ('crash_workload', 'many_datasets', 'results_latest'):
+        if cap['name'] == 'results_latest':
+            d = dict(r1=cap['args'][0], r2=cap['args'][1], other_between=bool(cap['args'][2]))
+        elif cap['name'] == 'many_datasets':
             d = dict(n=cap['args'][0], again=cap['args'][1])
         else:
             k, a, b, s2, s3, rf = cap['args']
@@ -101,6 +104,8 @@ def main():
                   env=dict(VH_KMAX=kmax)))
     nmax = 14 if thorough else 12
     obs.append(Ob(f'many_datasets[n<={nmax}]', 'C16_db.py', 'many_datasets', T, env=dict(VH_NMAX=nmax)))
+    obs.append(Ob('results_latest', 'C16_db.py', 'results_latest', T))
+    obs.append(Ob('results_latest__twin', 'C16_db.py', 'results_latest__twin', 120, kind='twin'))
     obs.append(Ob('many_datasets__twin', 'C16_db.py', 'many_datasets__twin', 120, kind='twin', env=dict(VH_NMAX=3)))
     maxa = 4 if thorough else 3
     maxm = 3 if thorough else 2
@@ -122,7 +127,7 @@ def main():
                       annotations=f'names 1-2 chars, annotation <= {maxa} chars over {{a,b,space}} (+ line break in the '
                                   f'finding obligation)',
                       log=f'two messages, first <= {maxm} chars over {{a, quote, comma, line break}}',
-                      outside='fsync/rename durability below the Python API; store_modelfit_results/metadata contents; '
+                      outside='fsync/rename durability below the Python API; the contents of results / metadata files (tokens here); '
                               'pd.read_csv in retrieve_log; concurrent transactions (serialised by the path lock, C15)')
     run.assumptions = ['in-memory file system behind pathlib.Path.{mkdir,touch,exists,is_file,is_dir,iterdir,glob,unlink}',
                        'write_csv / write_model / DataInfo.to_json are "create empty, then fill" (two operations)',
@@ -138,7 +143,7 @@ def main():
     for call in ['crash_workload(3, 1, 2, True, False, True)', 'crash_workload(5, 1, 2, True, False, True)',
                  'crash_workload(8, 1, 1, False, True, False)', 'crash_workload(11, 2, 3, True, True, True)',
                  'crash_workload(17, 1, 2, True, False, False)', 'crash_workload(30, 3, 1, False, False, True)',
-                 'many_datasets(11, 3)']:
+                 'many_datasets(11, 3)', 'results_latest(1, 2, True)', 'results_latest(2, 0, False)']:
         ob = Ob(f'conformance:{call}', 'C16_db.py', call.split('(')[0], env=dict(VH_KMAX=kmax))
         mrep = replay_call(ob, call)
         real = confirm(ob, call, mrep)
